@@ -372,8 +372,9 @@ def build_class(cdef, interp):
     """Evaluate a `class` statement with the statement interpreter `interp` (a BlockInterp)."""
     from .minieval import BlockInterp
 
-    if cdef.keywords:
+    if any(k.arg in (None, "metaclass") for k in cdef.keywords):
         raise Unsupported(f"class keywords (metaclass ...) on {cdef.name}")
+    class_kwargs = {k.arg: interp.me.ev(k.value) for k in cdef.keywords}  # handed to __init_subclass__ of the bases
     bases = []
     kind = "plain"
     if len(cdef.bases) == 1 and ast.unparse(cdef.bases[0]) in ("dict", "list", "set") and ast.unparse(cdef.bases[0]) not in interp.me.env:
@@ -453,7 +454,7 @@ def build_class(cdef, interp):
                         return store[key]
                     return call
                 clo = _cached(clo, st.name)
-            mk = "static" if "staticmethod" in decs else "class" if "classmethod" in decs else "property" if ("property" in decs or "cached_property" in decs) else "plain"
+            mk = "static" if "staticmethod" in decs else "class" if ("classmethod" in decs or st.name in ("__init_subclass__", "__class_getitem__")) else "property" if ("property" in decs or "cached_property" in decs) else "plain"
             ns[st.name] = _Method(mk, clo)
             body_env[st.name] = clo
             continue
@@ -487,10 +488,20 @@ def build_class(cdef, interp):
         cls = build_enum(cdef.name, kind.split(":")[1], ns, bases)
         _set_defining_class(ns, cls)
         return cls
-    if "__getattr__" in ns or "__getattribute__" in ns or "__setattr__" in ns or "__init_subclass__" in ns or "__new__" in ns:
+    if "__getattr__" in ns or "__getattribute__" in ns or "__setattr__" in ns or "__new__" in ns:
         raise Unsupported(f"attribute hooks / __new__ in class {cdef.name}")
     cls = UserClass(cdef.name, bases, ns, kind=kind, fields=fields, dc_opts=dc_opts)
     _set_defining_class(ns, cls)
+    # the class has been created: its bases are told (registration hooks: `class _And(_Encoding, types=("and",))`)
+    hook = _MISSING
+    for b_ in cls._uc_mro()[1:]:
+        if "__init_subclass__" in b_._uc_ns:
+            hook = b_._uc_ns["__init_subclass__"]
+            break
+    if isinstance(hook, _Method):
+        hook.clo(cls, **class_kwargs)
+    elif class_kwargs:
+        raise ModelRaise("TypeError", f"{cdef.name}.__init_subclass__() takes no keyword arguments")
     return cls
 
 
